@@ -153,6 +153,11 @@ class Run:
                 return
             c = ready[op[1] % len(ready)]
             await self.reply_and_check(c, op[2])
+        elif kind == "late_reply":
+            # an outside answer for a circuit that was just torn down, while its exit's outside socket lingers
+            late = [c for c in self.circuits if c["dead"] and any(not t.closed for t in c.get("trs", []))]
+            if late:
+                await self.late_reply_and_check(late[op[1] % len(late)], op[2])
         elif kind == "burst":
             await self.burst_and_check(live, op[1])
         elif kind == "advance":
@@ -174,6 +179,8 @@ class Run:
                                       payload)
         await asyncio.sleep(0.05)
         mine = {id(t) for t in self.exit_transports(c)}
+        if self.exit_transports(c):
+            c["trs"] = self.exit_transports(c)
         seen_at = []
         for t in self.loop.transports:
             for data, addr in t.sent[before.get(id(t), 0):]:
@@ -218,6 +225,27 @@ class Run:
             await self.reply_and_check(c, tag)
         self.nontrivial = True
         self.executed.append(("burst", len(live)))
+
+    async def late_reply_and_check(self, c: dict, tag: int) -> None:
+        payload = self.tag_payload(c, tag, back=True)
+        marks = {idx: len(v) for idx, v in self.raw.items()}
+        seq0 = self.w.net.seq
+        trs = [t for t in c["trs"] if t.local_addr[0] == "0.0.0.0" and not t.closed]
+        if not trs:
+            return
+        trs[0].inject(payload, c["dest"])
+        await asyncio.sleep(0.05)
+        for fl in self.w.net.log:
+            if fl.seq > seq0 and payload[:12] in fl.data:
+                self.fail("J1", "late_reply:cleartext", f"an outside answer that arrived for torn-down circuit {c['n']} while its "
+                                                        f"exit socket lingered was put on the overlay network readable, in a "
+                                                        f"datagram from {fl.src} to {fl.dst}")
+        got = [(idx, item) for idx, v in self.raw.items() for item in v[marks[idx]:]]
+        want = (c["origin"].idx, (c["circuit"].circuit_id, c["dest"], payload))
+        if any(g != want for g in got):
+            self.fail("J1", "late_reply:originator", f"late reply for circuit {c['n']} was delivered as {got}")
+        self.nontrivial = True
+        self.executed.append(("late_reply", len(c["entries"])))
 
     async def reply_and_check(self, c: dict, tag: int) -> None:
         payload = self.tag_payload(c, tag, back=True)
@@ -347,6 +375,9 @@ class Run:
                 before_other = self.digest_without(c)
                 signer.overlay.send_destroy(node.address, cid, reason)
                 await w.net.settle()
+                if op[4] % 2 == 0 and any(not t.closed for t in c.get("trs", [])):
+                    # an outside answer arrives while the exit's socket lingers
+                    await self.late_reply_and_check(c, op[4])
                 await asyncio.sleep(w.nodes[0].overlay.settings.remove_tunnel_delay + 1)
                 for (nd, k, ecid, _, _) in c["entries"]:
                     if nd is node and ecid == cid:
@@ -568,6 +599,7 @@ def _strategy(max_ops: int):
         st.tuples(st.just("send"), i, i).map(list),
         st.tuples(st.just("burst"), i).map(list),
         st.tuples(st.just("reply"), i, i).map(list),
+        st.tuples(st.just("late_reply"), i, i).map(list),
         st.tuples(st.just("advance"), st.sampled_from([0.5, 3.0, 8.0, 61.0])).map(list),
         st.tuples(st.just("unknown_cell"), i, st.integers(0, 2**32 - 1), i).map(list),
         st.tuples(st.just("forged_cell"), i, i, i).map(list),
